@@ -25,8 +25,27 @@ def main():
         import shlex, shutil
         if shutil.which("unshare") and subprocess.run(["unshare", "-n", "true"], capture_output=True).returncode == 0:
             cmd = ["unshare", "-n", "sh", "-c", "ip link set lo up 2>/dev/null; exec " + " ".join(shlex.quote(c) for c in cmd)]
-        p = subprocess.run(cmd, cwd=os.environ.get("VERIF_BASELINE_CWD", "/repo"), env=env, stdout=subprocess.PIPE, stderr=subprocess.STDOUT, text=True)
-        tail = "\n".join(p.stdout.splitlines()[-5:])
+        # tests/test_setup.py can leave non-daemon threads behind, in which case pytest never exits although the junit
+        # report is complete: wait for the report, give the process 30 s more, then terminate it
+        import time
+        logf = open(os.path.join(td, "pytest.log"), "w")
+        proc = subprocess.Popen(cmd, cwd=os.environ.get("VERIF_BASELINE_CWD", "/repo"), env=env, stdout=logf, stderr=subprocess.STDOUT, text=True)
+        t_report = None
+        deadline = time.time() + 1500
+        while proc.poll() is None and time.time() < deadline:
+            time.sleep(2)
+            if t_report is None and os.path.exists(out) and os.path.getsize(out) > 0:
+                t_report = time.time()
+            if t_report is not None and time.time() - t_report > 30:
+                break
+        if proc.poll() is None:
+            proc.terminate()
+            try:
+                proc.wait(10)
+            except subprocess.TimeoutExpired:
+                proc.kill()
+        logf.close()
+        tail = "\n".join(open(os.path.join(td, "pytest.log")).read().splitlines()[-5:])
         passed = set()
         root = ET.parse(out).getroot()
         for tc in root.iter("testcase"):
